@@ -153,6 +153,9 @@ func (p *Program) sumImpls(iface *types.Named) []types.Type {
 		if pk.Types == nil {
 			continue
 		}
+		if iface.Obj().Pkg() == nil || path != iface.Obj().Pkg().Path() {
+			continue // variants are the implementing types declared next to the interface
+		}
 		sc := pk.Types.Scope()
 		for _, n := range sc.Names() {
 			tn, ok := sc.Lookup(n).(*types.TypeName)
@@ -166,7 +169,11 @@ func (p *Program) sumImpls(iface *types.Named) []types.Type {
 			if nt, ok := T.(*types.Named); ok && nt.TypeParams() != nil && nt.TypeParams().Len() > 0 {
 				continue
 			}
-			for _, cand := range []types.Type{T, types.NewPointer(T)} {
+			cands := []types.Type{T, types.NewPointer(T)}
+			if isBigIntNamed(T) {
+				cands = []types.Type{types.NewPointer(T)} // big integers are handled through pointers (machine.Number = *MonetaryInt)
+			}
+			for _, cand := range cands {
 				if types.Implements(cand, it) {
 					k := types.TypeString(cand, nil)
 					if !seen[k] {
